@@ -311,6 +311,7 @@ def tree_changes(
             tree2_id,
             want_unchanged=want_unchanged,
             include_trees=include_trees,
+            paths=paths,
         )
         return
 
@@ -619,7 +620,10 @@ class RenameDetector:
             self._changes.append(change)
 
     def _collect_changes(
-        self, tree1_id: ObjectID | None, tree2_id: ObjectID | None
+        self,
+        tree1_id: ObjectID | None,
+        tree2_id: ObjectID | None,
+        paths: Sequence[bytes] | None = None,
     ) -> None:
         want_unchanged = self._find_copies_harder or self._want_unchanged
         for change in tree_changes(
@@ -628,6 +632,7 @@ class RenameDetector:
             tree2_id,
             want_unchanged=want_unchanged,
             include_trees=self._include_trees,
+            paths=paths,
         ):
             self._add_change(change)
 
@@ -820,12 +825,13 @@ class RenameDetector:
         tree2_id: ObjectID | None,
         want_unchanged: bool = False,
         include_trees: bool = False,
+        paths: Sequence[bytes] | None = None,
     ) -> list[TreeChange]:
         """Iterate TreeChanges between two tree SHAs, with rename detection."""
         self._reset()
         self._want_unchanged = want_unchanged
         self._include_trees = include_trees
-        self._collect_changes(tree1_id, tree2_id)
+        self._collect_changes(tree1_id, tree2_id, paths)
         self._find_exact_renames()
         self._find_content_rename_candidates()
         self._choose_content_renames()
